@@ -103,7 +103,24 @@ def probe_cadence_run(inp):
     return evaluate(inp, cadence_case(inp))
 
 
-PROBES = {"cadence_run": probe_cadence_run}
+def probe_na_stream(inp):
+    """surface-hopping engine: the nonadiabatic stream (and the others) hold the initial snapshot + multiples of their own cadence
+    with absolute labels, every allocated row written - for a fresh run and for a run stopped after a checkpoint and resumed"""
+    sc = inp["sc"]
+    obs = mdh.surface_hopping_run(sc, stop_at=inp.get("stop_at"))
+    bad = []
+    for m, o in obs.items():
+        for g in ("data", "coordinates", "velocities", "forces", "nonadiabatic"):
+            want = spec(sc["cad"].get(g, 0), sc["steps"])
+            if o.get(g, []) != want:
+                bad.append(f"mol{m}:{g} labels {o.get(g)} != due {want}")
+        if not all(o.get("na_rows_written", [])):
+            bad.append(f"mol{m}: unwritten nonadiabatic rows {o.get('na_rows_written')}")
+    return {"ok": not bad, "observed": bad[:6], "expected": "every stream = initial snapshot + multiples of its own cadence, absolute labels", "predicate": "labels(stream) == due",
+            "fields": {"kinds": ["labels:nonadiabatic"] if any("nonadiabatic" in b for b in bad) else (["labels"] if bad else []), "engine": "surface_hopping", "resumed": inp.get("stop_at") is not None}}
+
+
+PROBES = {"cadence_run": probe_cadence_run, "na_stream": probe_na_stream}
 
 
 def model_line(sc) -> str:
@@ -194,6 +211,20 @@ def run(ctx: Ctx):
                            predicate=r["predicate"], stratum=("real" if not sc["stub"] else sc["engine"]))
     finally:
         drv.close()
+    # surface-hopping engine: nonadiabatic stream, fresh and resumed (real engine; the stream is an instance of the single-stream machine of the model)
+    rng = ctx.rng
+    na_cases = [{"sc": dict(mols=["h2o"], molid=[0], cad=dict(data=1, coordinates=3, nonadiabatic=2, ckpt=3), steps=6, seed=1), "stop_at": 3},
+                {"sc": dict(mols=["h2o"], molid=[0], cad=dict(data=2, coordinates=1, nonadiabatic=int(rng.choice([1, 2, 3])), ckpt=0), steps=int(rng.integers(4, 7)), seed=2)}]
+    if ctx.thorough:
+        na_cases += [{"sc": dict(mols=["h2o", "h2o"], molid=[0, 1], cad=dict(data=1, coordinates=2, nonadiabatic=int(rng.choice([1, 2, 3])), ckpt=int(rng.choice([2, 4]))), steps=7, seed=int(rng.integers(1, 99))),
+                     "stop_at": None} for _ in range(3)]
+        for c in na_cases[2:]:
+            c["stop_at"] = c["sc"]["cad"]["ckpt"]
+    for c, r in zip(na_cases, mdh.pmap(probe_na_stream, na_cases, nproc=4, timeout=1500)):
+        if isinstance(r, Exception) or r is None:
+            ctx.obligation("probe na_stream evaluated", False, repr(r)[-1200:], kind="harness")
+            continue
+        ctx.probe_case("na_stream", c, r["ok"], fields=r["fields"], observed=r["observed"], expected=r["expected"], predicate=r["predicate"], stratum="resumed" if c.get("stop_at") else "fresh")
     ctx.extra["input_distribution"] = {
         "cases": len(cases),
         "coprime_vector_tuples": sum(1 for s in cases if len({s["cad"].get(g, 0) for g in STREAMS[1:]} - {0}) == 3),
